@@ -1756,13 +1756,27 @@ pub fn op_coerce(case: &J) -> J {
           if ti % stride != offset {
             continue;
           }
-          let use_named = (ti / stride + vi) % 2 == 1;
-          let text = if use_named {
-            named += 1;
-            format!("(function(x: {}) x)(x: {})", t, vtext)
-          } else {
-            positional += 1;
-            format!("(function(x: {}) x)({})", t, vtext)
+          // four invocation shapes in turn: positional, named, from another function whose parameter has the same
+          // name, and with a variable of the same name bound (non-null) around the invocation: what the body sees is
+          // the coerced argument whatever else carries that name further down the scope
+          let shape = (ti / stride + vi) % 4;
+          let text = match shape {
+            1 => {
+              named += 1;
+              format!("(function(x: {}) x)(x: {})", t, vtext)
+            }
+            2 => {
+              positional += 1;
+              format!("{{inner: function(x: {}) x, outer: function(x) inner(x), r: outer({})}}.r", t, vtext)
+            }
+            3 => {
+              named += 1;
+              format!("{{x: \"outer binding\", r: (function(x: {}) x)(x: {})}}.r", t, vtext)
+            }
+            _ => {
+              positional += 1;
+              format!("(function(x: {}) x)({})", t, vtext)
+            }
           };
           let mut vd = d.clone();
           vd["feel"] = json!(text);
